@@ -31,6 +31,7 @@ type Profile struct {
 	Inline       map[string]bool
 	Noop         map[string]bool
 	Tracked      []string // region-name prefixes that havoc-calls leave alone
+	AutoLoopInv  []Clause // invariants given to every loop that has none of its own
 	lockHook     func(c *FnCtx, fr *frame, st *State, name string, cc *ssa.CallCommon)
 }
 
